@@ -23,12 +23,34 @@ type memStream struct {
 	writes  []int
 	forward bool // Write also queues the bytes as a fragment for the reader
 	err     error
+	// final: no further fragment will ever be queued. A Read that finds the queue empty after final
+	// closes starved (once): from then on the reader can make no progress, which the sequential harness
+	// uses to tell "blocked forever" from "still working" without waiting for a long timeout.
+	final   bool
+	starved chan struct{}
 }
 
 func newMemStream(forward bool) *memStream {
-	s := &memStream{forward: forward}
+	s := &memStream{forward: forward, starved: make(chan struct{})}
 	s.cond = sync.NewCond(&s.mu)
 	return s
+}
+
+func (s *memStream) setFinal() {
+	s.mu.Lock()
+	s.final = true
+	s.mu.Unlock()
+	s.cond.Broadcast()
+}
+
+func (s *memStream) markStarved() { // s.mu held
+	if s.final {
+		select {
+		case <-s.starved:
+		default:
+			close(s.starved)
+		}
+	}
 }
 
 func (s *memStream) push(frag []byte) {
@@ -69,10 +91,14 @@ func (s *memStream) Write(p []byte) (int, error) {
 func (s *memStream) Read(p []byte) (int, error) {
 	s.mu.Lock()
 	defer s.mu.Unlock()
+	if len(p) == 0 {
+		return 0, s.err // like a real stream: an empty read does not wait for data
+	}
 	for len(s.frags) == 0 {
 		if s.err != nil {
 			return 0, s.err
 		}
+		s.markStarved()
 		s.cond.Wait()
 	}
 	n := copy(p, s.frags[0])
@@ -86,13 +112,13 @@ func (s *memStream) Read(p []byte) (int, error) {
 
 type sendSide struct{ *memStream }
 
-func (s sendSide) StreamID() quic.StreamID            { return 2 }
-func (s sendSide) Close() error                       { return nil }
-func (s sendSide) CancelWrite(quic.StreamErrorCode)   {}
-func (s sendSide) Context() context.Context           { return context.Background() }
-func (s sendSide) SetWriteDeadline(time.Time) error   { return nil }
-func (s sendSide) Read([]byte) (int, error)           { return 0, errors.New("send side") }
-func (s sendSide) Write(p []byte) (int, error)        { return s.memStream.Write(p) }
+func (s sendSide) StreamID() quic.StreamID          { return 2 }
+func (s sendSide) Close() error                     { return nil }
+func (s sendSide) CancelWrite(quic.StreamErrorCode) {}
+func (s sendSide) Context() context.Context         { return context.Background() }
+func (s sendSide) SetWriteDeadline(time.Time) error { return nil }
+func (s sendSide) Read([]byte) (int, error)         { return 0, errors.New("send side") }
+func (s sendSide) Write(p []byte) (int, error)      { return s.memStream.Write(p) }
 
 type recvSide struct{ *memStream }
 
@@ -103,23 +129,25 @@ func (s recvSide) SetReadDeadline(time.Time) error { return nil }
 // ---------- fake quic.Connection ----------
 
 type fakeConn struct {
-	mu       sync.Mutex
-	cond     *sync.Cond
-	send     *memStream // our outgoing uni stream
-	recv     *memStream // the peer's uni stream
-	accepted bool
-	dgramsIn [][]byte
-	dgramOut [][]byte // record of everything sent
-	peer     *fakeConn
-	closed   error
-	ctx      context.Context
-	cancel   context.CancelFunc
+	mu        sync.Mutex
+	cond      *sync.Cond
+	send      *memStream // our outgoing uni stream
+	recv      *memStream // the peer's uni stream
+	accepted  bool
+	dgramsIn  [][]byte
+	dgFinal   bool          // no further datagram will be delivered
+	dgStarved chan struct{} // closed when ReceiveDatagram finds the queue empty after dgFinal
+	dgramOut  [][]byte      // record of everything sent
+	peer      *fakeConn
+	closed    error
+	ctx       context.Context
+	cancel    context.CancelFunc
 }
 
 var _ quic.Connection = (*fakeConn)(nil)
 
 func newFakeConn(send, recv *memStream) *fakeConn {
-	c := &fakeConn{send: send, recv: recv}
+	c := &fakeConn{send: send, recv: recv, dgStarved: make(chan struct{})}
 	c.cond = sync.NewCond(&c.mu)
 	c.ctx, c.cancel = context.WithCancel(context.Background())
 	return c
@@ -151,7 +179,9 @@ func (c *fakeConn) AcceptUniStream(ctx context.Context) (quic.ReceiveStream, err
 	return nil, c.waitClosed(ctx)
 }
 
-func (c *fakeConn) OpenStream() (quic.Stream, error) { return nil, errors.New("fake: no bidirectional streams") }
+func (c *fakeConn) OpenStream() (quic.Stream, error) {
+	return nil, errors.New("fake: no bidirectional streams")
+}
 func (c *fakeConn) OpenStreamSync(context.Context) (quic.Stream, error) {
 	return nil, errors.New("fake: no bidirectional streams")
 }
@@ -176,7 +206,7 @@ func (c *fakeConn) CloseWithError(code quic.ApplicationErrorCode, msg string) er
 	return nil
 }
 
-func (c *fakeConn) Context() context.Context             { return c.ctx }
+func (c *fakeConn) Context() context.Context              { return c.ctx }
 func (c *fakeConn) ConnectionState() quic.ConnectionState { return quic.ConnectionState{} }
 
 func (c *fakeConn) SendDatagram(p []byte) error {
@@ -198,6 +228,13 @@ func (c *fakeConn) SendDatagram(p []byte) error {
 	return nil
 }
 
+func (c *fakeConn) setDgramFinal() {
+	c.mu.Lock()
+	c.dgFinal = true
+	c.mu.Unlock()
+	c.cond.Broadcast()
+}
+
 func (c *fakeConn) ReceiveDatagram(ctx context.Context) ([]byte, error) {
 	// the callback takes the lock so that it cannot fire between the ctx.Err() check and cond.Wait()
 	stop := context.AfterFunc(ctx, func() { c.mu.Lock(); c.mu.Unlock(); c.cond.Broadcast() })
@@ -210,6 +247,13 @@ func (c *fakeConn) ReceiveDatagram(ctx context.Context) ([]byte, error) {
 		}
 		if err := ctx.Err(); err != nil {
 			return nil, err
+		}
+		if c.dgFinal {
+			select {
+			case <-c.dgStarved:
+			default:
+				close(c.dgStarved)
+			}
 		}
 		c.cond.Wait()
 	}
